@@ -259,8 +259,13 @@ def write_steps(rng, prog, lane, d, n, algo, key=None, how="oneshot", chunks=Non
     if key:
         s["key"] = key
     st.append(s)
+    flushy = rng.random() < 0.35            # flushes between chunks (and before the first one)
+    if flushy and rng.random() < 0.3:
+        st.append({"op": "w_flush", "lane": lane, "h": alias})
     for (lo, hi) in (chunks or [(0, n)]):
         st.append({"op": "w_write", "lane": lane, "h": alias, "data": d, "from": lo, "to": hi, "all": all_})
+        if flushy and rng.random() < 0.5:
+            st.append({"op": "w_flush", "lane": lane, "h": alias})
     if rng.random() < 0.2:
         st.append({"op": "w_flush", "lane": lane, "h": alias})
     st.append({"op": "w_commit", "lane": lane, "h": alias})
